@@ -1,0 +1,18 @@
+//go:build verif
+
+package operator
+
+import (
+	"reduction.dev/reduction/proto/workerpb"
+	"reduction.dev/reduction/util/vhook"
+)
+
+// verifRetune rebuilds the timer store with the harness's cache size so that
+// caches smaller than the timer set occur at simulation scale.
+func (o *Operator) verifRetune(req *workerpb.DeployOperatorRequest) {
+	t := vhook.Tuning()
+	if t == nil || t.TimerCacheBytes == 0 {
+		return
+	}
+	o.timerRegistry = NewTimerRegistry(NewTimerStore(o.db, o.keySpace, o.keyGroupRange, t.TimerCacheBytes), req.SourceRunnerIds)
+}
